@@ -91,6 +91,8 @@ GENERICS = [
     G("T", "T", T="T"),
     G("T:bound", "T: ::core::clone::Clone", T="T"),
     G("T:where", "T", where="T: ::core::clone::Clone", T="T"),
+    # the way rustfmt lays out a where clause: trailing comma (an expansion that appends `, Pred` to the printed clause breaks)
+    G("T,U:where-trailing-comma", "T, U", where="T: ::core::clone::Clone, U: ::core::marker::Sized,", T="T", U="U"),
     G("T=default", "T = Tag", T="T"),
     G("T,U", "T, U: ::core::clone::Clone", where="T: ::core::clone::Clone", T="T", U="U"),
     G("'a", "'a", lt="'a"),
